@@ -64,7 +64,8 @@ pub struct Conn {
 pub struct Listener {
     pub port: u16,
     pub queue: VecDeque<usize>,
-    pub waker: Option<Waker>,
+    /// every task parked in accept() on this listener (a change may run several accept loops on one listener)
+    pub waker: Vec<Waker>,
 }
 
 #[derive(Clone, Copy, Debug, PartialEq, Eq)]
@@ -73,7 +74,13 @@ pub enum AcceptFault {
     Emfile,
     /// Any other error (e.g. ECONNABORTED): the connection is gone.
     Aborted,
+    /// Another errno accept(2) can fail with transiently. Resource shortages (ENFILE 23,
+    /// ENOBUFS 105, ENOMEM 12) leave the connection in the backlog; errors pending on the
+    /// new connection (EPROTO 71, ENETDOWN 100, EHOSTUNREACH 113, EOPNOTSUPP 95, EPERM 1,
+    /// ENETUNREACH 101, EHOSTDOWN 112, ENOPROTOOPT 92, ENONET 64) consume it.
+    Os(i32),
 }
+pub const TRANSIENT_ACCEPT_ERRNOS: [i32; 12] = [23, 105, 12, 71, 100, 113, 95, 1, 101, 112, 92, 64];
 
 pub struct Knobs {
     pub sock_cap: usize,
@@ -116,7 +123,7 @@ impl Net {
     pub fn take_all_wakers(&mut self) -> Vec<Waker> {
         let mut v = Vec::new();
         for l in self.listeners.values_mut() {
-            v.extend(l.waker.take());
+            v.extend(l.waker.drain(..));
         }
         for c in &mut self.conns {
             v.extend(c.c2s.reader_waker.take());
@@ -151,7 +158,7 @@ impl World {
             Listener {
                 port,
                 queue: VecDeque::new(),
-                waker: None,
+                waker: Vec::new(),
             },
         );
         self.log(Ev::ListenerBound(port));
@@ -190,6 +197,17 @@ impl World {
                         self.log(Ev::AcceptFault(24));
                         return Poll::Ready(Err(std::io::Error::from_raw_os_error(24)));
                     }
+                    AcceptFault::Os(errno) => {
+                        if !matches!(errno, 23 | 105 | 12) {
+                            let id = self.net.listeners.get_mut(&port).unwrap().queue.pop_front().unwrap();
+                            let c = &mut self.net.conns[id];
+                            c.rst = true;
+                            c.server_closed = true;
+                        }
+                        self.count("fault.accept_other_errno");
+                        self.log(Ev::AcceptFault(errno));
+                        return Poll::Ready(Err(std::io::Error::from_raw_os_error(errno)));
+                    }
                     AcceptFault::Aborted => {
                         let id = self.net.listeners.get_mut(&port).unwrap().queue.pop_front().unwrap();
                         let c = &mut self.net.conns[id];
@@ -208,7 +226,9 @@ impl World {
         }
         match self.net.listeners.get_mut(&port) {
             Some(l) => {
-                l.waker = Some(waker.clone());
+                if !l.waker.iter().any(|w| w.will_wake(waker)) {
+                    l.waker.push(waker.clone());
+                }
                 Poll::Pending
             }
             None => Poll::Ready(Err(io_err(ErrorKind::NotConnected))),
@@ -240,9 +260,9 @@ impl World {
         });
         let l = self.net.listeners.get_mut(&port).unwrap();
         l.queue.push_back(id);
-        let wk = l.waker.take();
+        let wk: Vec<Waker> = l.waker.drain(..).collect();
         self.log(Ev::Connected(id));
-        if let Some(w) = wk {
+        for w in wk {
             w.wake();
         }
         Some(id)
